@@ -9,17 +9,26 @@ PROP = "C14"
 PROPERTY_FILE = "Properties/C14.v"
 GEN_DEPS = ["GenPairing"]
 RULE = ("cases: exhaustive small ranges + boundary families m^2-1,m^2,m^2+1 (m up to 2^31), m^3+-1, random 60-bit values, "
-        "interval shapes L,R in [1,40] with shuffled call orders, size tuples of length 1-4; non-trivial = distinct case whose "
-        "index/tuple is not all-zero")
-MODELLED = ["PairingToZ1d.__init__ dispatch, PairingToZd glue, PepisKalmar recursion, lazy_indices_product, RosenbergStrong n-d "
+        "interval shapes L,R in [1,40] with shuffled call orders, size tuples of length 1-4; real Domain/StatesManager objects on 16 "
+        "1-d shapes and 16 n-d grids (d = 2,3; centred, off-centre and edge origins; unequal axes) x {Szudzik, Rosenberg-Strong} x "
+        "{no, rectangle, simplex, small simplex, MyBoundary} boundaries; a_n on 0..599, around squares, random < 2e6 and m^2-1 above 2^52; "
+        "non-trivial = distinct case whose index/tuple is not all-zero")
+MODELLED = ["PairingToZ1d.__init__ dispatch, PairingToZd glue (d = 2 pair form and general d list form zdn_*), the generic nested "
+            "Pairing.pairing/projection (nest_*), PepisKalmar recursion, lazy_indices_product, RosenbergStrong n-d, a_n "
             "(hand models in Model/Pairing.v, tied by vm_compute correspondence)",
-            "HyperbolicPairing (sympy.factorint, root finder): oracle only, no Coq model",
+            "Domain.compute_total_number_of_states_and_frontier, StatesManager.__init__/is_outside (Model/Domain.v) and "
+            "project_index_to_state_increment (Model/StatesManager.v): hand models; the grid box is axis sizes + one origin index, "
+            "Domain.outside enters as the list of in-grid states it rejects (data), tied by correspondence on real Domain/StatesManager objects",
+            "HyperbolicPairing (sympy.factorint, float root finder upper_bound_a_n): oracle only; only a_n is modelled and proved",
             "functools.cache/lru_cache: modelled as identity on pure functions"]
 ASSUMPTIONS = ["Python int is unbounded (Z); math.isqrt is the integer square root (Z.sqrt)"]
 THEOREM_NOTES = {
     "C14_rs_nd_*": "d-dimensional Rosenberg-Strong: both directions for every dimension d >= 1; iroot is the exact integer root (the repaired code corrects its float guess to it; C14_iroot_unique)",
     "C14_sm_*": "StatesManager.project_index_to_state_increment as a state machine: over increasing indices without reset it returns exactly the in-grid indices <= max frontier, each once, then exhaustion for ever; the random frontier draw on exhaustion is not modelled",
-    "C14_sm_reset": "histories with x == max_logged (reset) are covered by the vm_compute correspondence only",
+    "C14_sm_complete_*": "ONE theorem per enumeration (1-d PairingToZ1d; d >= 2 nested Szudzik, d = 2 being the factory's; d >= 2 Rosenberg-Strong): with max_frontier_indices computed by the model of Domain/StatesManager.__init__, the increasing drive returns every in-grid, in-domain, non-origin state exactly once, then exhaustion; the domain is an arbitrary predicate on state increments; origin index 0 <= o < last axis size is assumed only by the frontier entry all_states[o], not by the theorems",
+    "C14_sm_reset_refuted": "finding F-C14-6 (root cause of F-C02-7): after a skipped index a reset (x == max_logged) re-enumerates from the index x; C14_sm_step_char characterises every call exactly, C14_sm_increasing_with_resets / C14_sm_all_admissible_resets are the positive statements (a reset is harmless when no index below it was skipped)",
+    "C14_zdn*": "PairingToZd for every dimension over Rosenberg-Strong (d >= 1) and nested Szudzik (d >= 2), omit_zero True and False, both directions; C14_nested_* hold for ANY 2-d bijection (Cantor.projection raises for dim != 2 in the code)",
+    "C14_a_n_divisor_summatory": "a_n with the integer square root (the repaired code, fix 21d4376 on branch fix-c14x; finding F-C14-7 for the float sqrt) equals sum_{k<=n} floor(n/k); HyperbolicPairing itself (factorisation, float root finder) stays oracle-only",
     "C14_pepis_kalmar_*": "pk_pairing2d is generated from the source; pk_projection2d (recursive _aux_k/_aux_j) is the hand model of Model/Pairing.v, tied by correspondence",
 }
 
@@ -210,11 +219,14 @@ def correspond(res):
             viol("HyperbolicPairing: pairing2d(projection2d(z)) != z", kind="hyp", z=z, got=[x, y])
 
     # StatesManager over increasing indices (1-d, 2-d, 3-d grids; centred or not) and as a state machine
-    _states_manager(res, rng, viol)
+    _states_manager(res, rng, viol, groups)
     _states_manager_machine(res, rng, groups)
+    _reset_history(res, viol)
+    _nested_and_zdn(res, rng, viol, groups)
+    _a_n(res, rng, viol, groups)
 
     # ---------- Coq side: the model must compute exactly what the implementation returned -----
-    header = ("From Coq Require Import ZArith List Bool.\nFrom RV Require Import Gen.GenPairing Model.Pairing Model.StatesManager.\nOpen Scope Z_scope.\n"
+    header = ("From Coq Require Import ZArith List Bool.\nFrom RV Require Import Gen.GenPairing Model.Pairing Model.StatesManager Model.Domain Proofs.C14_StatesManager.\nOpen Scope Z_scope.\n"
               "Fixpoint sm_lasts (o : Z -> bool) (maxf last : Z) (cs : list (Z*Z)) : list Z := match cs with nil => nil | c :: r => "
               "let s := sm_step Z (fun i => i) o maxf last (fst c) (snd c) in snd s :: sm_lasts o maxf (snd s) r end.")
     res.case_lemmas += len(groups)
@@ -224,6 +236,94 @@ def correspond(res):
             res.broke(f"correspondence {g}", f"model and implementation differ on {len(bad[g])} case(s), first: {cases[bad[g][0]]}")
         else:
             res.case_ok += 1
+
+
+def _nested_and_zdn(res, rng, viol, groups):
+    """Pairing.pairing/projection for dim > 2 (generic nesting), PairingToZd in dimension 2..4 with omit_zero True/False"""
+    from rpylib.distribution import pairing as P
+    tier = res.tier
+    nest_cases = []
+    for tag, obj, dims, N in ((0, P.Szudzik(), (3, 4), 3000 if tier == "quick" else 40000), (1, P.PepisKalmar(), (3,), 600 if tier == "quick" else 3000)):
+        for d in dims:
+            seen = set()
+            zs = list(range(N)) + (sorted({N + rng.getrandbits(rng.randrange(12, 50)) for _ in range(60)}) if tag == 0 else [])
+            for z in zs:
+                x = tuple(int(v) for v in obj.projection(z, d))
+                res.count(("nest", tag, d, z), nontrivial=z > 0, kind=f"{type(obj).__name__}.projection d={d}")
+                if len(x) != d or min(x) < 0 or obj.pairing(x) != z or x in seen:
+                    viol("generic nested pairing: pairing(projection(z, d)) != z or duplicate", kind="nest", cls=type(obj).__name__, dim=d, z=z, got=list(x))
+                seen.add(x)
+                if z < 300 or z % 29 == 0 or z >= N:
+                    nest_cases.append((tag, d, z, x))
+    groups.append(("nest", "Z * nat * Z * list Z",
+                   "fun c => match c with (tag, d, z, x) => "
+                   "let p2 := if tag =? 0 then szudzik_pairing2d else pk_pairing2d in "
+                   "let pr2 := if tag =? 0 then szudzik_projection2d else pk_projection2d in "
+                   "zlist_eqb (nest_projection pr2 d z) x && Z.eqb (nest_pairing p2 x) z end",
+                   [f"({tag}, {d}%nat, {zlit(z)}, {lst([zlit(v) for v in x])})" for tag, d, z, x in nest_cases]))
+    zdn_cases = []
+    for tag, mk, dims in ((0, P.RosenbergStrong, (2, 3, 4)), (1, P.Szudzik, (2, 3))):
+        for d in dims:
+            for omit in (True, False):
+                pz = P.PairingToZd(pairing=mk(), dimension=d, omit_zero=omit)
+                seen = set()
+                N = 700 if tier == "quick" else 8000
+                for n in range(N):
+                    s = tuple(int(v) for v in pz.project(n))
+                    res.count(("zdn", tag, d, omit, n), kind=f"PairingToZd d={d} omit_zero={omit}")
+                    if len(s) != d or s in seen or pz.pair(s) != n or (omit and not any(s)):
+                        viol("PairingToZd: project not injective / pair does not invert / hits the omitted origin", kind="zd",
+                             pairing=mk.__name__, dim=d, omit_zero=omit, n=n, got=list(s))
+                    seen.add(s)
+                    if n < 120 or n % 13 == 0:
+                        zdn_cases.append((tag, d, 1 if omit else 0, n, s))
+                if not omit and tuple([0] * d) not in seen:
+                    viol("PairingToZd(omit_zero=False) never returns the origin", kind="zd", pairing=mk.__name__, dim=d, omit_zero=omit)
+    groups.append(("zdn", "Z * nat * Z * Z * list Z",
+                   "fun c => match c with (tag, d, omit, n, s) => "
+                   "let npair := if tag =? 0 then rs_pairing else nest_pairing szudzik_pairing2d in "
+                   "let nproj := if tag =? 0 then rs_projection else nest_projection szudzik_projection2d in "
+                   "zlist_eqb (zdn_project nproj d omit n) s && Z.eqb (zdn_pair npair omit s) n end",
+                   [f"({tag}, {d}%nat, {o}, {zlit(n)}, {lst([zlit(v) for v in s])})" for tag, d, o, n, s in zdn_cases]))
+    # the 2-d pair form with omit_zero = False
+    pz = P.PairingToZd(pairing=P.Szudzik(), dimension=2, omit_zero=False)
+    zd0 = [(n, tuple(int(v) for v in pz.project(n))) for n in range(400)]
+    groups.append(("zd2_0", "Z * (Z * Z)", "fun c => zpair_eqb (zd2_project szudzik_projection2d 0 (fst c)) (snd c) && Z.eqb (zd2_pair szudzik_pairing2d 0 (snd c)) (fst c)",
+                   [f"({zlit(n)}, ({zlit(s[0])}, {zlit(s[1])}))" for n, s in zd0]))
+
+
+def _a_n_reference(n):
+    """sum_{k=1..n} floor(n/k) by the hyperbola method with the INTEGER square root, vectorised"""
+    import math
+    import numpy as np
+    s, tot, k0 = math.isqrt(n), 0, 1
+    while k0 <= s:
+        k1 = min(s, k0 + 4_000_000 - 1)
+        tot += int((n // np.arange(k0, k1 + 1, dtype=np.int64)).sum())
+        k0 = k1 + 1
+    return 2 * tot - s * s
+
+
+def _a_n(res, rng, viol, groups):
+    from rpylib.numerical.numbers import a_n
+    cases = []
+    ns = list(range(0, 600)) + [m * m + dlt for m in (31, 100, 999, 1000, 4096) for dlt in (-1, 0, 1)] + [rng.randrange(600, 2 * 10 ** 6) for _ in range(40)]
+    for n in ns:
+        v = int(a_n(n))
+        res.count(("a_n", n), nontrivial=n > 0, kind="a_n")
+        want = sum(n // k for k in range(1, n + 1)) if n < 3000 else _a_n_reference(n)
+        if v != want:
+            viol("a_n(n) is not the divisor summatory function sum_{k<=n} floor(n/k)", kind="a_n", n=n, got=v, expected=want)
+        cases.append((n, v))
+    groups.append(("a_n", "Z * Z", "fun c => Z.eqb (a_n (fst c)) (snd c)", [f"({zlit(n)}, {zlit(v)})" for n, v in cases]))
+    # the float square root: n = m^2 - 1 just above 2^52 (one call, ~6 s: 2^26 loop iterations in the implementation)
+    for m in ([2 ** 26 + 1] if res.tier == "quick" else [2 ** 26 + 1, 2 ** 26 + 12345]):
+        n = m * m - 1
+        v, want = int(a_n(n)), _a_n_reference(n)
+        res.count(("a_n-big", n), kind="a_n near 2^52")
+        if v != want:
+            viol("a_n(n) is not the divisor summatory function for n = m^2 - 1 above 2^52 (floating-point sqrt rounds up to m)",
+                 kind="a_n", finding="F-C14-7", n=n, m=m, got=v, expected=want)
 
 
 def _enumerate(sm, limit=200000):
@@ -237,49 +337,145 @@ def _enumerate(sm, limit=200000):
     return got
 
 
-def _states_manager(res, rng, viol):
+def _boundaries(P, rng, dim, sizes, o):
+    """the default boundary and non-trivial ones inside the box; truncations as (negative left, positive right) per axis"""
+    def trunc(shrink):
+        t = []
+        for n in sizes:
+            lo, hi = max(1, o), max(1, n - o - 1)
+            if shrink:
+                lo, hi = rng.randint(1, lo), rng.randint(1, hi)
+            t.append((-float(lo), float(hi)))
+        return t
+    out = [("none", P.Boundary())]
+    out.append(("rectangle", P.RectangleBoundary(truncations=trunc(1))))
+    out.append(("simplex", P.SimplexBoundary(truncations=trunc(0))))
+    out.append(("simplex-small", P.SimplexBoundary(truncations=trunc(1))))
+    if dim >= 2:
+        out.append(("my", P.MyBoundary(truncations=trunc(0), threshold=rng.choice([0.5, 1.5]))))
+    return out
+
+
+def _states_manager(res, rng, viol, groups):
+    """real Domain + StatesManager objects: (i) oracle: the increasing drive returns every in-grid, in-domain, non-origin
+    state exactly once before exhaustion; (ii) correspondence of Model/Domain.v: max_state_index, the frontier deque and
+    the whole enumeration are recomputed by the Coq model from (axis sizes, origin index, rejected states)"""
+    import itertools as it
+    import numpy as np
+    from rpylib.distribution import pairing as P
+    from rpylib.grid.grid import Coordinates
+    from rpylib.grid.spatial import CTMCGrid
+    one_d, n_d = [], []
+    # 1-d: interval shapes x boundaries
+    shapes = [(rng.randrange(1, 8), rng.randrange(1, 8)) for _ in range(12)] + [(1, 1), (1, 5), (5, 1), (3, 3)]
+    for (L, R) in shapes:
+        n = L + R + 1
+        for bname, boundary in _boundaries(P, rng, 1, [n], L):
+            axis = np.array([float(k) for k in range(-L, R + 1)])
+            grid = CTMCGrid(h=1.0, origin_coordinate=L, axes=[axis])
+            pairing = P.PairingToZ1d((-L, R), omit_zero=True)
+            dom = P.Domain(boundary=boundary, grid=grid, pairing=pairing)
+            sm = P.StatesManager(pairing=pairing, domain=dom, grid=grid)
+            frontier, msi = [int(v) for v in sm.frontier_states_indices], int(dom.max_state_index)
+            got = _enumerate(sm, 10 * (L + R) + 10)
+            res.count(("sm1d", L, R, bname), kind=f"StatesManager 1d {bname}")
+            res.bump("sm_boundary", bname)
+            rejected = [k for k in range(-L, R + 1) if bool(dom.outside(grid[Coordinates(L + k)]))]
+            want = set(range(-L, R + 1)) - {0} - set(rejected)
+            if sorted(got) != sorted(want):
+                viol("StatesManager(1-d) does not return every in-grid, in-domain non-origin state exactly once before exhaustion",
+                     kind="sm", L=L, R=R, boundary=bname, got=got, missing=sorted(want - set(got)), extra=sorted(set(got) - want))
+            one_d.append((n, L, rejected, msi, frontier, got))
+    # n-d: centred / off-centre origin (also on the edge), equal / unequal axis lengths, both pairings the factory can choose
+    grids = [(2, [5, 5], 2), (2, [7, 7], 3), (2, [7, 7], 4), (2, [7, 7], 1), (2, [5, 9], 2), (2, [9, 5], 2), (2, [4, 6], 1),
+             (2, [3, 4], 1), (2, [6, 3], 2), (2, [4, 4], 0), (2, [5, 4], 3),
+             (3, [3, 3, 3], 1), (3, [5, 5, 5], 2), (3, [4, 3, 5], 1), (3, [5, 5, 5], 1), (3, [3, 5, 4], 2)]
+    for dim, sizes, o in grids:
+        for pname in ("szudzik", "rs"):
+            for bname, boundary in _boundaries(P, rng, dim, sizes, o):
+                axes = [np.array([float(k) for k in range(-o, n - o)]) for n in sizes]
+                grid = CTMCGrid(h=1.0, origin_coordinate=o, axes=axes)
+                pairing = P.PairingToZd(pairing=P.Szudzik() if pname == "szudzik" else P.RosenbergStrong(), dimension=dim)
+                dom = P.Domain(boundary=boundary, grid=grid, pairing=pairing)
+                sm = P.StatesManager(pairing=pairing, domain=dom, grid=grid)
+                frontier, msi = [int(v) for v in sm.frontier_states_indices], int(dom.max_state_index)
+                got = _enumerate(sm)
+                res.count(("smnd", dim, tuple(sizes), o, pname, bname), kind=f"StatesManager {dim}d {pname} {bname}")
+                res.bump("sm_boundary", bname)
+                res.bump("sm_origin", "centred" if all(n == 2 * o + 1 for n in sizes) else "off-centre")
+                box = list(it.product(*[range(-o, n - o) for n in sizes]))
+                rejected = [s for s in box if bool(dom.outside(grid[Coordinates([o + v for v in s])]))]
+                want = set(box) - {tuple([0] * dim)} - set(rejected)
+                res.bump("sm_rejected_in_grid_states", "0" if not rejected else ("1-5" if len(rejected) <= 5 else ">5"))
+                if sorted(got) != sorted(want):
+                    miss = sorted(want - set(got))
+                    viol(f"StatesManager({dim}-d, {pname}) does not return every in-grid, in-domain non-origin state exactly once before exhaustion",
+                         kind="sm", dim=dim, sizes=sizes, origin=o, pairing=pname, boundary=bname, n_returned=len(got), n_expected=len(want),
+                         duplicates=len(got) != len(set(got)), missing=[list(m) for m in miss[:12]],
+                         extra=[list(m) for m in sorted(set(got) - want)[:12]])
+                if msi != max([int(pairing.pair(s)) for s in box if s not in set(rejected)] + [-1]):
+                    viol("Domain.max_state_index is not the largest pairing index of an in-domain state", kind="dom", dim=dim, sizes=sizes,
+                         origin=o, pairing=pname, boundary=bname, max_state_index=msi)
+                n_d.append((0 if pname == "rs" else 1, sizes, o, rejected, msi, frontier, got))
+
+    def zl(xs):
+        return lst([zlit(v) for v in xs])
+    groups.append(("dom1d", "Z * Z * list Z * Z * list Z * list Z",
+                   "fun c => match c with (n, o, outs, msi, fr, states) => "
+                   "let dout := fun s => existsb (Z.eqb s) outs in let L := o in let R := n - o - 1 in "
+                   "let r := dom_1d (z1d_pair (- L) R 1) n o in "
+                   "Z.eqb (fst r) msi && zlist_eqb (snd r) fr && "
+                   "zlist_eqb (map (z1d_project (- L) R 1) (sm_good Z (z1d_project (- L) R 1) (sm_is_outside_1d n o dout) (dom_maxf r))) states end",
+                   [f"({zlit(n)}, {zlit(o)}, {zl(outs)}, {zlit(msi)}, {zl(fr)}, {zl(states)})" for n, o, outs, msi, fr, states in one_d]))
+    groups.append(("domnd", "Z * list Z * Z * list (list Z) * Z * list Z * list (list Z)",
+                   "fun c => match c with (tag, sizes, o, outs, msi, fr, states) => "
+                   "let dout := fun s => existsb (zlist_eqb s) outs in "
+                   "let npair := if tag =? 0 then rs_pairing else nest_pairing szudzik_pairing2d in "
+                   "let nproj := if tag =? 0 then rs_projection else nest_projection szudzik_projection2d in "
+                   "let d := length sizes in let r := dom_nd dout (zdn_pair npair 1) sizes o in "
+                   "Z.eqb (fst r) msi && zlist_eqb (snd r) fr && "
+                   "list_eqb zlist_eqb (map (zdn_project nproj d 1) (sm_good (list Z) (zdn_project nproj d 1) (sm_is_outside sizes o dout) (dom_maxf r))) states end",
+                   [f"({tag}, {zl(sizes)}, {zlit(o)}, {lst([zl(x) for x in outs])}, {zlit(msi)}, {zl(fr)}, {lst([zl(x) for x in states])})"
+                    for tag, sizes, o, outs, msi, fr, states in n_d]))
+
+
+def _reset_history(res, viol):
+    """finding F-C14-6 on the implementation: a history x = 0,1,2,... with max_logged = K (what InversionMethod passes with
+    _max_storage = K) on an off-centre 2-d grid, where indices are skipped before call K"""
     import numpy as np
     from rpylib.distribution import pairing as P
     from rpylib.grid.spatial import CTMCGrid
-    # 1-d: every interval shape
-    shapes = [(rng.randrange(1, 8), rng.randrange(1, 8)) for _ in range(25)] + [(1, 1), (1, 5), (5, 1), (3, 3)]
-    for (L, R) in shapes:
-        axis = np.array([float(k) for k in range(-L, R + 1)])
-        grid = CTMCGrid(h=1.0, origin_coordinate=L, axes=[axis])
-        pairing = P.PairingToZ1d((-L, R), omit_zero=True)
-        dom = P.Domain(boundary=P.Boundary(), grid=grid, pairing=pairing)
-        sm = P.StatesManager(pairing=pairing, domain=dom, grid=grid)
-        got = _enumerate(sm, 10 * (L + R) + 10)
-        res.count(("sm1d", L, R), kind="StatesManager 1d")
-        want = set(range(-L, R + 1)) - {0}
-        if sorted(got) != sorted(want):
-            viol("StatesManager(1-d) does not return every in-grid non-origin state exactly once before exhaustion",
-                 kind="sm", L=L, R=R, got=got, missing=sorted(want - set(got)))
-    # n-d: centred / off-centre origin, equal / unequal axis lengths, both pairings the factory can choose
-    grids = [(2, [5, 5], 2), (2, [7, 7], 3), (2, [7, 7], 4), (2, [7, 7], 1), (2, [5, 9], 2), (2, [9, 5], 2), (2, [4, 6], 1),
-             (3, [3, 3, 3], 1), (3, [5, 5, 5], 2), (3, [4, 3, 5], 1), (3, [5, 5, 5], 1)]
-    for dim, sizes, o in grids:
-        for pname in ("szudzik", "rs"):
-            if pname == "szudzik" and dim != 2:
-                continue
-            axes = [np.array([float(k) for k in range(-o, n - o)]) for n in sizes]
-            grid = CTMCGrid(h=1.0, origin_coordinate=o, axes=axes)
-            pairing = P.PairingToZd(pairing=P.Szudzik() if pname == "szudzik" else P.RosenbergStrong(), dimension=dim)
-            dom = P.Domain(boundary=P.Boundary(), grid=grid, pairing=pairing)
-            sm = P.StatesManager(pairing=pairing, domain=dom, grid=grid)
-            got = _enumerate(sm)
-            res.count(("smnd", dim, tuple(sizes), o, pname), kind=f"StatesManager {dim}d {pname}")
-            import itertools as it
-            want = set(it.product(*[range(-o, n - o) for n in sizes])) - {tuple([0] * dim)}
-            if sorted(got) != sorted(want):
-                dup = len(got) != len(set(got))
-                miss = sorted(want - set(got))
-                payload = dict(kind="sm", dim=dim, sizes=sizes, origin=o, pairing=pname, n_returned=len(got), n_expected=len(want),
-                               duplicates=dup, missing=[list(m) for m in miss[:12]], extra=[list(m) for m in sorted(set(got) - want)[:12]])
-                if pname == "rs" and not dup and not (set(got) - want):
-                    # known: max(frontier indices) is not the largest in-grid index for the Rosenberg-Strong order
-                    payload["finding"] = "F-C14-5"
-                viol(f"StatesManager({dim}-d, {pname}) does not return every in-grid non-origin state exactly once before exhaustion", **payload)
+    sizes, o, K = [5, 5], 1, 16
+    axes = [np.array([float(k) for k in range(-o, n - o)]) for n in sizes]
+    grid = CTMCGrid(h=1.0, origin_coordinate=o, axes=axes)
+    pairing = P.PairingToZd(pairing=P.Szudzik(), dimension=2)
+    dom = P.Domain(boundary=P.Boundary(), grid=grid, pairing=pairing)
+    sm = P.StatesManager(pairing=pairing, domain=dom, grid=grid)
+    got, x = [], 0
+    while x < 1000:
+        s, done = sm.project_index_to_state_increment(x, K)
+        if done:
+            break
+        got.append(tuple(int(v) for v in s))
+        x += 1
+    res.count(("sm-reset", tuple(sizes), o, K), kind="StatesManager reset history")
+    dups = sorted({s for s in got if got.count(s) > 1})
+    if dups:
+        viol("StatesManager: a reset (x == max_logged) after skipped indices returns states a second time",
+             kind="sm-reset", finding="F-C14-6", sizes=sizes, origin=o, pairing="szudzik", max_logged=K, n_returned=len(got),
+             n_states=len(set(got)), duplicates=[list(d) for d in dups[:12]], first_duplicate_call=next(k for k, s in enumerate(got) if s in got[:k]))
+
+
+def matches_known(v, known):
+    """F-C14-6 only absorbs the reset-history violation itself: duplicates that start exactly at the reset call"""
+    r = v["replay"]
+    if known["id"] == "F-C14-6":
+        return r.get("kind") == "sm-reset" and r.get("first_duplicate_call") == r.get("max_logged") and bool(r.get("duplicates"))
+    if known["id"] == "F-C14-7":   # float sqrt in a_n: only n = m^2 - 1 above 2^52, off by exactly one
+        import math
+        n = r.get("n", 0)
+        return r.get("kind") == "a_n" and n >= 2 ** 52 and math.isqrt(n + 1) ** 2 == n + 1 and r.get("expected", 0) - r.get("got", 0) == 1
+    return False
 
 
 def _states_manager_machine(res, rng, groups):
@@ -340,18 +536,36 @@ def replay(path):
             return 0 if cls.pairing2d(*p) == data["z"] else 1
         z = cls.pairing2d(data["x"], data["y"]); p = tuple(cls.projection2d(z)); print("pairing2d ->", z, "projection2d ->", p)
         return 0 if p == (data["x"], data["y"]) else 1
+    if k == "a_n":
+        from rpylib.numerical.numbers import a_n
+        v, want = int(a_n(data["n"])), _a_n_reference(data["n"])
+        print("a_n ->", v, "divisor summatory function ->", want)
+        return 0 if v == want else 1
+    if k == "sm-reset":
+        class _R:
+            tier = "quick"
+            def count(self, *a, **kw): pass
+        hits = []
+        _reset_history(_R(), lambda what, **kw: hits.append((what, kw)))
+        print("reset history:", hits[0][1] if hits else "no state returned twice")
+        return 1 if hits else 0
     print("replay: re-run ./check C14 to re-evaluate this class of input")
     return 1
 
-LEVEL_TEXT = ("Proof: 28 Coq theorems (closed under the global context, no axioms) state that the Cantor, Rosenberg-Strong (2-d and d-dimensional), Szudzik and Pepis-Kalmar "
-              "pairings and their projections are mutually inverse on all naturals, that the N<->Z maps, PairingToZd (d=2) and "
-              "PairingToZ1d (every interval [-L,R], every index, hence every call order) are bijections onto the non-zero states, and "
-              "that lazy_indices_product enumerates every tuple exactly once for all size lists. The straight-line functions are "
-              "re-translated from /repo by py2coq on every run, so an edit re-checks the proofs; loops/classes are hand-modelled and "
-              "compared with the implementation by vm_compute on ~22k boundary and random cases; StatesManager.project_index_to_state_increment is "
-              "proved (as a state machine) to return every in-grid index <= the maximum exactly once over increasing indices. Partial: the "
-              "hyperbolic pairing, the computation of the maximum index by Domain, reset histories and d >= 3 signed enumerations are covered "
-              "by correspondence/oracle only.")
+LEVEL_TEXT = ("Proof: 53 Coq theorems (closed under the global context, no axioms). The Cantor, Rosenberg-Strong (2-d and d-dimensional), Szudzik "
+              "and Pepis-Kalmar pairings and their projections are mutually inverse on all naturals; the generic nested pairing/projection "
+              "for dim > 2 is a bijection for any 2-d bijection; the N<->Z maps, PairingToZd (every d, over Rosenberg-Strong and nested "
+              "Szudzik, omit_zero True and False) and PairingToZ1d (every interval [-L,R], every index, hence every call order, omit_zero "
+              "True and False) are bijections onto the (non-zero) states; lazy_indices_product enumerates every tuple exactly once. "
+              "Admissible-state enumeration: Domain's max_state_index / StatesManager.max_frontier_indices bound the index of every in-grid "
+              "in-domain state (any domain predicate, any box and origin), and composed with the bijections and the state machine of "
+              "project_index_to_state_increment this gives ONE theorem per enumeration (1-d, d-dim Szudzik, d-dim Rosenberg-Strong): the "
+              "increasing drive returns each in-grid, in-domain, non-origin state exactly once, then exhaustion. Reset histories are "
+              "characterised exactly (refuted in general: finding F-C14-6; proved harmless when nothing was skipped). a_n is proved equal "
+              "to the divisor summatory function. Straight-line functions are re-translated from /repo by py2coq on every run; loops/classes "
+              "are hand-modelled and compared with the implementation by vm_compute on ~25k boundary and random cases, including real "
+              "Domain/StatesManager objects (max_state_index, frontier deque, whole enumeration) under non-trivial boundaries. Partial: the "
+              "hyperbolic pairing beyond a_n (factorisation, float root finder) is oracle-only; the frontier draw on exhaustion is not modelled.")
 LEVEL_NOTE = ("Trusted: Coq kernel + vm_compute; py2coq translator (fail-closed, also cross-checked by running generated definitions "
               "against the implementation); Python ints modelled as Z, math.isqrt as Z.sqrt; caches modelled as identity.")
 TECHNIQUE = "Coq proof (lia/nia over Z, induction over size lists) on py2coq-generated definitions + vm_compute correspondence"
